@@ -12,6 +12,7 @@ import (
 	"fmt"
 	"os"
 	"path/filepath"
+	"runtime"
 	"strings"
 	"sync"
 	"sync/atomic"
@@ -118,6 +119,10 @@ func domainFor(prop string) domain {
 }
 
 func genScenario(t *rapid.T, s *rt.Spec, d domain) *rt.Scenario {
+	maxLen := *flagMaxLen
+	if *flagProp == "C03" && maxLen < 60 {
+		maxLen = 60 // goroutines must not grow with the number of elements
+	}
 	scn := &rt.Scenario{Seed: uint64(1 + uniform(t, "seed", 1<<16)), Out: make([]rt.Outcome, s.Units), Pred: make([]int, s.Units)}
 	kinds := s.UnitKinds()
 	faulty := prob(t, "faulty", d.pFault)
@@ -179,7 +184,7 @@ func genScenario(t *rapid.T, s *rt.Spec, d domain) *rt.Scenario {
 		case 3:
 			n = 2
 		default:
-			n = 3 + uniform(t, "len", *flagMaxLen-2)
+			n = 3 + uniform(t, "len", maxLen-2)
 		}
 		if !scn.CollNil[c] {
 			scn.Colls[c] = make([]uint64, n)
@@ -244,6 +249,7 @@ func clean(s *rt.Scenario) *rt.Scenario {
 }
 
 type execResult struct {
+	baseG        int // goroutines of the process before the executions started
 	runs         []*rt.Run
 	leak         string
 	inconclusive string
@@ -265,7 +271,7 @@ func executeAs(s *rt.Spec, scn *rt.Scenario, prop, regName string) *execResult {
 		g = 1
 	}
 	base := rt.SchedIDs()
-	res := &execResult{runs: make([]*rt.Run, g)}
+	res := &execResult{runs: make([]*rt.Run, g), baseG: runtime.NumGoroutine()}
 	var wg sync.WaitGroup
 	for i := 0; i < g; i++ {
 		sc := scn
@@ -274,6 +280,7 @@ func executeAs(s *rt.Spec, scn *rt.Scenario, prop, regName string) *execResult {
 		}
 		env := rt.NewEnv(i, s, sc)
 		env.Race = prop == "C12"
+		env.Census = prop == "C03"
 		run := &rt.Run{Env: env, Mode: prop}
 		res.runs[i] = run
 		ctx, cancel := context.WithCancel(rt.WithEnv(context.Background(), env))
@@ -399,6 +406,29 @@ func evaluate(s *rt.Spec, scn *rt.Scenario, prop string) (mine, other []rt.Findi
 		}
 		if res.leak != "" {
 			all = append(all, rt.Finding{Prop: "C06", Msg: "scheduler goroutines remain blocked after the directive returned:\n" + res.leak})
+		}
+		if prop == "C03" && s.Extra == 0 {
+			// (not judged when the enclosing function holds further directives:
+			// their schedulers use the default limit and may still be winding down)
+			// Goroutines started by the scheduler, the cff runtime or generated
+			// code are bounded by the limit only: per simultaneous execution the
+			// scheduler loop, the goroutine that spawns the workers, `limit`
+			// workers, plus one replacement per Goexit (old and new may overlap).
+			maxG, bound := 0, 0
+			for _, r := range res.runs {
+				if n := int(r.Env.MaxG.Load()); n > maxG {
+					maxG = n
+				}
+				bound += rt.ConcLimit(s, r.Env.Scn) + 2
+				for _, inj := range r.Env.Injected {
+					if inj.Goexit {
+						bound++
+					}
+				}
+			}
+			if maxG > bound {
+				all = append(all, rt.Finding{Prop: "C03", Msg: fmt.Sprintf("%d goroutines started by the scheduler or by generated code existed while user functions of the directive ran; with %d simultaneous executions the limit allows at most %d: the number of goroutines is not bounded by the limit alone", maxG, len(res.runs), bound)})
+			}
 		}
 	}
 	for _, f := range all {
